@@ -130,7 +130,14 @@ class VecInterp(Interp):
 
     def rvalue(self, rv):
         if rv["k"] == "agg" and rv.get("ak") == "closure":
-            return {"__closure": rv["closure"], "caps": [self.operand(o) for o in rv["ops"]]}
+            # captured references leave this frame with the closure: bind them to the objects they designate
+            caps = []
+            for o in rv["ops"]:
+                x = self.operand(o)
+                if isinstance(x, tuple) and x and x[0] == "ref":
+                    x = ("refval", self.target(x))
+                caps.append(x)
+            return {"__closure": rv["closure"], "caps": caps}
         if rv["k"] == "unop" and rv["op"] == "PtrMetadata":
             v = self.target(self.operand(rv["a"]))
             if isinstance(v, list):
@@ -168,6 +175,8 @@ class VecInterp(Interp):
                 return v[1][v[2]]
             if isinstance(v, (list, dict)):
                 return v           # a vector / struct value used where a reference to it is expected
+        if isinstance(v, dict) and "__closure" in v and isinstance(pr, dict) and "f" in pr:
+            return v["caps"][pr["f"]]
         if isinstance(pr, dict) and "idx" in pr:
             v = self.target(v)
             i = self.env[pr["idx"]]
@@ -223,6 +232,24 @@ class VecInterp(Interp):
                 raise Undecidable("push on a non-vector")
             a[0].append(a[1])
             return {}
+        if re.search(r"Vec::<\w+(, A)?>::clear$", c) and isinstance(a[0], list) and not isinstance(a[0], View):
+            del a[0][:]
+            return {}
+        if re.search(r"Vec::<\w+(, A)?>::truncate$", c) and isinstance(a[0], list) and not isinstance(a[0], View) and isinstance(a[1], int):
+            del a[0][a[1]:]
+            return {}
+        if re.search(r"Vec::<\w+(, A)?>::resize$", c) and isinstance(a[0], list) and not isinstance(a[0], View) and isinstance(a[1], int):
+            # std: shrinks by truncation, grows by appending copies of the value - the kept prefix is NOT rewritten
+            if a[1] <= len(a[0]):
+                del a[0][a[1]:]
+            else:
+                a[0].extend([a[2]] * (a[1] - len(a[0])))
+            return {}
+        if re.search(r"Vec::<\w+(, A)?>::extend_from_slice$", c) and isinstance(a[0], list) and not isinstance(a[0], View) and isinstance(a[1], list):
+            a[0].extend(list(a[1][:]))
+            return {}
+        if re.search(r"Vec::<\w+(, A)?>::reserve(_exact)?$|Vec::<\w+(, A)?>::shrink_to_fit$", c) and isinstance(a[0], list):
+            return {}
         if re.search(r"(slice::<impl \[\w+\]>|Vec::<\w+(, A)?>)::len$", c):
             return len(a[0])
         if re.search(r"(slice::<impl \[\w+\]>|Vec::<\w+(, A)?>)::is_empty$", c):
@@ -235,12 +262,13 @@ class VecInterp(Interp):
             return [a[0]] * a[1]
         if re.search(r"(slice::<impl \[\w+\]>|Vec::<\w+(, A)?>)::(as_slice|as_mut_slice)$", c):
             return ("refval", a[0])
-        if c.endswith("for [T]>::index") or c.endswith("for [T]>::index_mut") or re.search(r"Index(Mut)?<I> for (alloc::vec::)?Vec<T, A>>::index(_mut)?$", c):
+        if c.endswith("for [T]>::index") or c.endswith("for [T]>::index_mut") or re.search(r"Index(Mut)?<I> for (alloc::vec::)?Vec<T, A>>::index(_mut)?$", c) or \
+                re.search(r"^<(alloc::vec::Vec<T, A>|\[T\]) as core::ops::index::Index(Mut)?<I>>::index(_mut)?$", c):
             v, r = a[0], a[1]
             if isinstance(v, list) and isinstance(r, int):
                 if not 0 <= r < len(v):
                     raise Panic("index out of bounds")
-                return v[r]
+                return ("refcell", v, r)
             if isinstance(v, list) and isinstance(r, dict):
                 lo = r.get("start", 0)
                 hi = r.get("end", len(v))
@@ -299,6 +327,8 @@ class VecInterp(Interp):
             return a[0]
         if c.endswith("core::iter::traits::collect::IntoIterator>::into_iter") and isinstance(a[0], list):
             return {"__iter": a[0], "pos": 0}
+        if re.search(r"IntoIterator for &'\w+ (mut )?(\[T\]|alloc::vec::Vec<T, A>|\[T; N\])>::into_iter$", c) and isinstance(a[0], list):
+            return {"__iter": a[0], "pos": 0, "mut": " mut " in c}
         if re.search(r"Iterator::rev$", c) and isinstance(a[0], dict) and a[0].get("__adt", "").endswith("ops::range::Range"):
             return {"__rev": a[0]}
         if re.search(r"Iterator for core::ops::range::Range<\w+>>::next$", c):
@@ -331,7 +361,8 @@ class VecInterp(Interp):
                         cp[name] = int(m.group(1))
                     elif g in self.cparams:
                         cp[name] = self.cparams[g]
-            sub = VecInterp(self.F, self.max_steps, self.depth + 1, cp)
+            sub = type(self)(self.F, self.max_steps, self.depth + 1, cp)
+            sub.world = getattr(self, "world", None)
             args = []
             for x in raw:
                 tx = self.target(x)
